@@ -281,6 +281,54 @@ def run(ctx):
                   msg=f"trigger_init calls {what} on {recvs} (scenario: the function was defined in a module - 'defining_ctx' - and is decorated in the user's file - 'decorating_ctx'): "
                   f"the trigger's expression strings are then evaluated against the other file's globals", key=f"trigger_init {what} receiver", node=program.func(ti_uid), rel="eval.py")
 
+    # R11.10 a module's globals hold values, never closure cells ---------------------------------------------------------------
+    ctx.rule("R11.10", "a class defined at module level (or declared global) is stored in the module's globals as the class itself, not as a closure cell: "
+             "`from m import K` must not share a rebindable cell with m, and `m.K` is the class", floor=2)
+    cd_uid = "eval.py::AstEval.ast_classdef"
+    from ..schematic import to_nodev
+
+    class _ScopePolicy(FlowPolicy):
+        distinct_slots = True
+
+        def __init__(self, *a, module_level=True, **k):
+            super().__init__(*a, **k)
+            self.module_level = module_level
+
+        def attr(self, interp, base, attr, cfg):
+            if isinstance(base, ObjV) and base.oid == "self" and attr in ("sym_table", "global_sym_table"):
+                slot = "self.global_sym_table" if (attr == "global_sym_table" or self.module_level) else "self.sym_table"
+                v = cfg.heap.get(slot)
+                return DictV(v.items, slot) if isinstance(v, DictV) else None
+            return None
+
+    for module_level in (True, False):
+        pol = _ScopePolicy(program, may_raise_all=False, cancel=False, module_level=module_level,
+                           summaries={"inspect.iscoroutine": lambda i, n, a, k, c, o: [(c, Const(False))], "hasattr": lambda i, n, a, k, c, o: [(c, Const(False))],
+                                      "self.aeval": lambda i, n, a, k, c, o: [(c, Const(None))]})
+        pol.track_aliases = True
+        pol.loop_unroll = 3
+        node = to_nodev(ast.parse("class K:\n    pass").body[0])
+        heap = {"self.global_sym_table": DictV([(Const("g"), Const(1))]), "self.sym_table": DictV([(Const("loc"), Const(2))]), "self.sym_table_stack": ListV((), "list"),
+                "self.curr_func": Const(None)}
+        out = run_flow(program, cd_uid, pol, args={"self": ObjV("self", "AstEval"), "arg": node}, heap=heap)
+        bad = None
+        ex = exits(out)
+        for k, c, d in ex:
+            tab = c.heap.get("self.global_sym_table" if module_level else "self.sym_table")
+            v = tab.get(Const("K")) if isinstance(tab, DictV) else None
+            is_cell = isinstance(v, App) and v.op == "new" and isinstance(v.args[0], ClassV) and v.args[0].name == "EvalLocalVar"
+            if k != "return":
+                bad = f"leaves with {d}"
+            elif v is None:
+                bad = "the class name is not bound"
+            elif module_level and is_cell:
+                bad = ("the module's globals hold a closure cell (EvalLocalVar) for K: `from m import K` hands the importer the same cell, a later `K = ...` in the importer rebinds m.K, "
+                       "and `m.K` / isinstance(x, m.K) see the cell instead of the class")
+            elif not module_level and not is_cell:
+                bad = f"inside a function the class name must be a closure cell so that inner functions can capture it; bound to {v!r}"
+        ctx.check(bool(ex) and bad is None, "R11.10", cd_uid, f"class statement at {'module level' if module_level else 'function level'}",
+                  msg=f"ast_classdef at {'module level' if module_level else 'function level'}: {bad or 'no exit'}", key=f"class binding kind {module_level}", node=program.func(cd_uid), rel="eval.py")
+
     # R11.4 imports bind into the current scope only --------------------------------------------------------------------
     ctx.rule("R11.4", "import statements bind names only through the current scope (closure cell / global declaration aware)", floor=2)
     for h in ("ast_import", "ast_importfrom"):
